@@ -25,6 +25,9 @@ Round 5:
       status when not 200), ` end=<kind>` (the handler that ran behaved so), ` esc=<panic|goexit>` (it left ServeHTTP).
   opt cors                           rest.WithCors(): OPTIONS requests => `204 cors`; the not-allowed handler is cors.NotAllowedHandler
                                      (outcome `na=204404 code=404`)
+  opt corsh | opt ccors              rest.WithCorsHeaders / WithCustomCors (same wiring as WithCors)
+  opt files=<dir>                    rest.WithFileServer(dir, fs) with the files a, b/c, x.txt, api/a: a GET below dir/ that names
+                                     one of them => `file=<name>` (the patRouter is not asked)
   opt router                         rest.WithRouter(router.NewRouter())
   use id=<k>                => ok    Server.Use(middleware u<k>) (trail tokens u<k>, outside the route's own middlewares)
   start                     => listen | panic:<verdict>   Server.Start() on a port that cannot be opened
@@ -140,7 +143,7 @@ def fmtResponse (resp : Response) (panics : Bool := false) : String :=
   | .customNotFound (.plain h) => s!"nf={h} code={(ownCode h).getD 200}"
   -- engine.notFoundHandler: next runs, then `cw.WriteHeader(404)` (ignored when next wrote a status)
   -- (a handler that panics or calls runtime.Goexit never returns to the wrapper: no 404 is forced)
-  | .customNotFound (.engine (some h)) => s!"nf={h} code={(ownCode h).getD (if panics then 200 else 404)}"
+  | .customNotFound (.engine (some h)) => s!"nf={h} code={engineNotFoundStatus (ownCode h) (!panics)}"
   | .customNotFound (.engine none) => "404"
   | .defaultNotFound => "404"
 
@@ -259,6 +262,9 @@ def splitExtras (o : String) : String × Option String × Option String × Optio
 def parseCtxVars (s : String) : List (String × String) :=
   if s = "" then [] else (s.splitOn ",").map splitEq
 
+/-- the file names the harness' http.FileSystem accepts (`WithFileServer`). -/
+def fsNames : List String := ["a", "b/c", "x.txt", "api/a"]
+
 def behKinds : List String := ["w201", "w204", "w301", "w404", "w405", "w500", "w503", "perr", "pstr", "pabort", "goexit"]
 
 structure St where
@@ -277,8 +283,9 @@ structure St where
   written : List (List Reg) := []  -- the caller slices as written in the `slice` lines
   rmeta : List (String × List String × Option (String × String) × List Layer) := []  -- bound route ↦ (jwt, chain of bindRoute)
   chain : Option Nat := none     -- rest.WithChain
-  cors : Bool := false           -- rest.WithCors: server.router is a corsRouter
+  wrappers : List Wrapper := []  -- rest.WithCors* / WithFileServer: what server.router is wrapped in (outermost first)
   uses : List Nat := []          -- Server.Use middlewares so far (ids, in Use order)
+  rereg : List (String × List String) := []  -- (method, cleaned pattern) re-registered with ANOTHER handler and rejected
 
 def patKind (pats : List String) : String :=
   String.ofList (pats.map fun k => if isVar k then 'v' else if k = "" then 'r' else 'l')
@@ -330,8 +337,9 @@ def runReq (r : Report) (st : St) (sidx : Nat) (l : Line) (m p : String) (auth :
   let dec : H → Params → String := fun h ps =>
     match rmetaOf h with
     | [(_, layers)] =>
-      let (tr, reached) := runChain auth layers
-      (if reached then fmtHitC ctx h ps else "401") ++ (if tr.isEmpty then "" else " mw=" ++ ".".intercalate tr)
+      let (tr, how) := runChain auth layers
+      (match how with | .handler => fmtHitC ctx h ps | .unauthorized => "401" | .stopped => "stopped") ++
+        (if tr.isEmpty then "" else " mw=" ++ ".".intercalate tr)
     | _ => fmtHitC ctx h ps
   let behPanics := beh.any fun k => ["perr", "pstr", "pabort", "goexit"].contains k
   let all := serveAllX st.pr m p dec behPanics
@@ -360,6 +368,12 @@ def runReq (r : Report) (st : St) (sidx : Nat) (l : Line) (m p : String) (auth :
     r := r.addCover (if ps.isEmpty then "hit-literal-only" else if kind.contains 'l' then "hit-mixed" else "hit-vars-only")
     if !outer.isEmpty then
       r := r.addCover (if ps.isEmpty then "hit-literal-route-keeps-outer-vars" else "hit-vars-replace-outer-vars")
+    match route with
+    | some pats =>
+      if st.rereg.contains (m, pats) then
+        r := r.addCover ("req-after-rejected-re-registration-" ++
+          (if pats = [""] then "root" else if pats.any isVar then "variable-pattern" else "literal-pattern"))
+    | none => pure ()
     if cs.length > 1 then r := r.addCover "hit-several-candidates"
     -- backtracking: where the chosen route has a variable, a literal child for the request's token
     -- existed (it is searched first and must have failed)
@@ -382,13 +396,26 @@ def runReq (r : Report) (st : St) (sidx : Nat) (l : Line) (m p : String) (auth :
   for oRaw in outsRaw do
     let (o, status, endK, esc) := splitExtras oRaw
     let panicked := endK.any fun k => ["perr", "pstr", "pabort", "goexit"].contains k
-    if (splitTrail o).1 = "401" then
+    if (splitTrail o).1 = "stopped" then
+      -- a user middleware (Server.Use) answered itself: acceptable iff the chain of an admissible route stops exactly there
+      let trS := (splitTrail o).2
+      let adm := Spec.admissible st.tbl m (toksO.getD [])
+      let ok := toksO.isSome && adm.any fun x =>
+        match lookupRMeta st.rmeta x.method x.pats with
+        | some (_, layers) => runChain auth layers == ((trS.splitOn ".").filter (· ≠ ""), .stopped)
+        | none => false
+      r := r.addCover "req-stopped-by-a-user-middleware"
+      if !ok then
+        r := r.violation sidx l.idx s!"request {m} {p}: the middlewares [{trS}] ran and the last one answered itself, but no admissible route [{",".intercalate (adm.map (fmtRoute (toksO.getD [])))}] has a chain that stops there"
+      if endK.isSome then
+        r := r.violation sidx l.idx s!"request {m} {p}: a middleware stopped the request but a user handler ran [{oRaw}]"
+    else if (splitTrail o).1 = "401" then
       let tr401 := (splitTrail o).2
       -- acceptable iff an admissible route was registered WithJwt and the token matches none of its secrets
       let adm := Spec.admissible st.tbl m (toksO.getD [])
       let ok := toksO.isSome && adm.any fun x =>
         match lookupRMeta st.rmeta x.method x.pats with
-        | some (jwt, layers) => !(tokenOk jwt auth) && ".".intercalate (runChain auth layers).1 == tr401
+        | some (_, layers) => runChain auth layers == ((tr401.splitOn ".").filter (· ≠ ""), .unauthorized)
         | none => false
       r := r.addCover "req-401-unauthorized"
       if tr401 ≠ "" then r := r.addCover "req-401-behind-WithChain-middlewares"
@@ -408,7 +435,7 @@ def runReq (r : Report) (st : St) (sidx : Nat) (l : Line) (m p : String) (auth :
       | [hk, ck] =>
         if srv ∧ hk.startsWith "nf=" ∧ ck.startsWith "code=" ∧ !panicked then
           let id := (dropStr 3 hk).toNat?.getD 0
-          if (dropStr 5 ck).toNat? ≠ some ((ownCode id).getD 404) then
+          if (dropStr 5 ck).toNat? ≠ some (engineNotFoundStatus (ownCode id) true) then
             r := r.violation sidx l.idx s!"request {m} {p}: the custom not-found handler nf={id} ran but the response status is [{dropStr 5 ck}], not [{(ownCode id).getD 404}] (no route matches: 404 unless the handler wrote a status itself)"
       | _ => pure ()
       -- every outcome kind of the user handler: whatever it does, it is the handler the property names, and
@@ -440,7 +467,7 @@ def runReq (r : Report) (st : St) (sidx : Nat) (l : Line) (m p : String) (auth :
         if trail ≠ "" then r := r.addCover "hit-behind-route-middlewares"
         if (trail.splitOn ".").any (·.startsWith "u") then r := r.addCover "hit-behind-Server.Use-middlewares"
         if (trail.splitOn ".").any (·.startsWith "c") then r := r.addCover "hit-behind-WithChain-middlewares"
-        if !ms.isEmpty ∧ !(ms.any fun x => runChain auth x.2 == ((trail.splitOn ".").filter (· ≠ ""), true)) then
+        if !ms.isEmpty ∧ !(ms.any fun x => runChain auth x.2 == ((trail.splitOn ".").filter (· ≠ ""), .handler)) then
           let regd := ms.map fun x => s!"jwt={(x.1.map fun ab => ab.1 ++ "," ++ ab.2).getD "off"} middlewares={".".intercalate ((x.2.filter fun l => match l with | .auth _ _ => false | _ => true).map Layer.tag)}"
           r := r.violation sidx l.idx s!"request {m} {p}: handler h={h} ran [middlewares={trail} token={auth.getD "none"}] but its route was registered with [{" | ".intercalate regd}]"
         if ms.isEmpty ∧ trail ≠ "" then
@@ -490,7 +517,11 @@ def runSection (r : Report) (s : Section) : Report := Id.run do
     | "route" :: args =>
       match arg "m=" args, arg "p=" args, (arg "h=" args).bind parseItem with
       | some m, some p, some item =>
-        let res := st.pr.handle m p item
+        -- `Handle` with the in-place mutation visible (PropsReject: a rejected call leaves every tree as it was)
+        let resM := handleM st.pr.core m p item
+        let res : Except HandleErr PatRouter := match resM.2 with
+          | none => .ok { st.pr with core := resM.1 }
+          | some e => .error e
         let (sv, tbl') := Spec.register st.tbl m p item
         let (implClean, implRes) := match l.obs with
           | [c, v] => ((String.ofList (c.toList.drop 6)), v)
@@ -504,9 +535,17 @@ def runSection (r : Report) (s : Section) : Report := Id.run do
         if fres ≠ implRes then r := r.mismatch s.idx l.idx fres implRes
         if fmtSpecReg sv ≠ implRes then
           r := r.violation s.idx l.idx s!"registration of {m} {p}: property demands [{fmtSpecReg sv}] implementation did [{implRes}]"
-        match res with
-        | .ok pr' => st := { st with pr := pr' }
-        | .error _ => pure ()
+        st := { st with pr := { st.pr with core := resM.1 } }
+        -- class of seeded change C09-9: the same (method, cleaned pattern) again with a DIFFERENT handler
+        if sv = .dup ∧ rooted p then
+          let pats := cleanToks p
+          match st.tbl.find? (fun x => x.method == m && x.pats == pats), item with
+          | some x, some h =>
+            if x.h ≠ h then
+              st := { st with rereg := st.rereg ++ [(m, pats)] }
+              r := r.addCover ("route-rejected-re-registration-with-another-handler-" ++
+                (if pats = [""] then "root" else if pats.any isVar then "variable-pattern" else "literal-pattern"))
+          | _, _ => pure ()
         if st.served then r := r.addCover "route-after-requests"
         if sv = .ok ∧ rooted p then
           for c in prefixClass ((st.tbl.filter (·.method == m)).map (·.pats)) (cleanToks p) do r := r.addCover c
@@ -534,19 +573,23 @@ def runSection (r : Report) (s : Section) : Report := Id.run do
         match (arg "nf=" [a]).bind parseItem, (arg "na=" [a]).bind parseItem with
         | some h, _ => some (.notFound h)
         | none, some h => some (.notAllowed h)
-        | none, none => if a = "router" then some .router else if a = "cors" then some .cors
-                        else ((arg "chain=" [a]).bind String.toNat?).map .chain
+        | none, none =>
+          if a = "router" then some .router else if a = "cors" then some .cors
+          else if a = "corsh" then some .corsHeaders else if a = "ccors" then some .customCors
+          else if a.startsWith "files=" then some (.fileServer (dropStr 6 a) fsNames)
+          else ((arg "chain=" [a]).bind String.toNat?).map .chain
       match o with
       | some o =>
         if st.built then
           if joinSp l.obs ≠ "late" then r := r.mismatch s.idx l.idx "late" (joinSp l.obs)
         else
           st := { st with opts := st.opts ++ [o], pr := { (newServer (st.opts ++ [o])).router with core := st.pr.core },
-                          chain := (newServer (st.opts ++ [o])).chain, cors := (newServer (st.opts ++ [o])).cors }
+                          chain := (newServer (st.opts ++ [o])).chain, wrappers := (newServer (st.opts ++ [o])).wrappers }
           r := r.addCover (match o with
             | .notFound none => "opt-notfound-nil" | .notFound _ => "opt-notfound-custom"
             | .notAllowed none => "opt-notallowed-nil" | .notAllowed _ => "opt-notallowed-custom"
-            | .router => "opt-WithRouter" | .chain _ => "opt-WithChain" | .cors => "opt-WithCors")
+            | .router => "opt-WithRouter" | .chain _ => "opt-WithChain" | .cors => "opt-WithCors"
+            | .corsHeaders => "opt-WithCorsHeaders" | .customCors => "opt-WithCustomCors" | .fileServer _ _ => "opt-WithFileServer")
           if joinSp l.obs ≠ "ok" then r := r.mismatch s.idx l.idx "ok" (joinSp l.obs)
       | none => r := r.mismatch s.idx l.idx "bad-op" (joinSp l.op)
     | "group" :: args =>
@@ -588,6 +631,7 @@ def runSection (r : Report) (s : Section) : Report := Id.run do
       | some k =>
         st := { st with built := true, uses := st.uses ++ [k] }
         r := r.addCover (if st.groups.isEmpty then "srv-Use-before-AddRoutes" else "srv-Use-after-AddRoutes")
+        if k ≥ 900 then r := r.addCover "srv-Use-middleware-that-does-not-call-next"
         if joinSp l.obs ≠ "ok" then r := r.mismatch s.idx l.idx "ok" (joinSp l.obs)
       | none => r := r.mismatch s.idx l.idx "bad-op" (joinSp l.op)
     | [bindOp] =>
@@ -609,6 +653,18 @@ def runSection (r : Report) (s : Section) : Report := Id.run do
       let gl := st.groups.map Group.regs
       match firstRejected tbl0 gl.flatten 0 with
       | some k =>
+        -- the rejected route: a re-registration of a bound (method, cleaned pattern) with another handler?
+        match gl.flatten[k]? with
+        | some (rm, rp, some rh) =>
+          if rooted rp then
+            match tbl'.find? (fun x => x.method == rm && x.pats == cleanToks rp) with
+            | some x =>
+              if x.h ≠ rh then
+                st := { st with rereg := st.rereg ++ [(rm, cleanToks rp)] }
+                r := r.addCover ("bind-rejected-re-registration-with-another-handler-" ++
+                  (if cleanToks rp = [""] then "root" else if (cleanToks rp).any isVar then "variable-pattern" else "literal-pattern"))
+            | none => pure ()
+        | _ => pure ()
         let (gi, pos, glen) := locateReg gl k 0
         r := r.addCover (if pos + 1 < glen then "bind-rejected-route-not-last-of-its-group" else "bind-rejected-route-last-of-its-group")
         r := r.addCover (if gi + 1 < gl.length then "bind-rejected-in-a-group-that-is-not-the-last" else "bind-rejected-in-the-last-group")
@@ -636,12 +692,19 @@ def runSection (r : Report) (s : Section) : Report := Id.run do
         if kvStr s.cfg "kind" = "server" then st := { st with built := true }
         -- rest.WithCors: the CORS middleware in front of the patRouter answers every OPTIONS request itself (as implemented:
         -- an OPTIONS route is never dispatched then; PropsEntry.cors_preflight_never_dispatches)
-        let srvModel : Server := { router := st.pr, cors := st.cors }
-        if srvModel.serveHTTP m p = .preflight then
-          r := r.addCover "req-cors-preflight-answered-by-the-middleware"
-          if rooted p ∧ !(Spec.candidates st.tbl m (cleanToks p)).isEmpty then r := r.addCover "req-cors-preflight-shadows-a-matching-OPTIONS-route"
-          if (joinSp (l.obs.drop 1)) ≠ "204 cors" then r := r.mismatch s.idx l.idx "204 cors" (joinSp (l.obs.drop 1))
-        else
+        let srvModel : Server := { router := st.pr, wrappers := st.wrappers }
+        let answered : Option String := match srvModel.serveHTTP m p with
+          | .preflight => some "204 cors"
+          | .file f => some ("file=" ++ f)
+          | .router _ => none
+        match answered with
+        | some want =>
+          r := r.addCover (if want = "204 cors" then "req-cors-preflight-answered-by-the-middleware" else "req-file-served-by-the-file-server")
+          if rooted p ∧ !(Spec.candidates st.tbl m (cleanToks p)).isEmpty then
+            r := r.addCover (if want = "204 cors" then "req-cors-preflight-shadows-a-matching-OPTIONS-route" else "req-file-shadows-a-matching-GET-route")
+          if (joinSp (l.obs.drop 1)) ≠ want then r := r.mismatch s.idx l.idx want (joinSp (l.obs.drop 1))
+        | none =>
+        if !st.wrappers.isEmpty then r := r.addCover "req-passed-on-by-the-router-wrappers"
         r := runReq r st s.idx l m p (arg "auth=" args) (kvStr s.cfg "kind" = "server") (arg "ctx=" args) (arg "beh=" args)
         st := { st with served := true }
       | _, _ => r := r.mismatch s.idx l.idx "bad-op" (joinSp l.op)
@@ -699,9 +762,11 @@ def runSection (r : Report) (s : Section) : Report := Id.run do
         let sv := Spec.rawAddVerdict (st.ttbl.map (·.pats)) p item
         if sv ≠ joinSp l.obs then
           r := r.violation s.idx l.idx s!"Tree.Add {p}: the rule for raw routes demands [{sv}] implementation did [{joinSp l.obs}]"
-        match res with
-        | .ok t => st := { st with tree := t }
-        | .error _ => pure ()
+        -- the REAL tree after the call (a failing Add may leave item-less nodes: PropsReject.treeAddM_spec)
+        let treeM := treeAddM st.tree p item
+        if treeM.2.isSome ∧ treeM.1.lits.length + treeM.1.vars.length > st.tree.lits.length + st.tree.vars.length then
+          r := r.addCover "tadd-failed-add-left-an-item-less-node-behind"
+        st := { st with tree := treeM.1 }
         if sv = "ok" then
           for c in prefixClass (st.ttbl.map (·.pats)) (Spec.rawKey p) do r := r.addCover ("tadd-" ++ c)
         match sv, item with
